@@ -155,23 +155,46 @@ package keeper
 //@   ensures [C05.timeout.shards] old(has(Order, orderId)) && old(Order[orderId].Status) != OrderPending && !has(Order, orderId) ==>
 //@       forall i int :: 0 <= i && i < len(old(Order[orderId].Shards)) ==> !has(Shard, old(Order[orderId].Shards)[i])
 //@   ensures [C12.timeout.absent] !old(has(Order, orderId)) ==> !has(Order, orderId)
+//@   ensures [C12.timeout.stored] old(has(Order, orderId)) && old(Order[orderId].Status) == OrderCompleted
+//@       && (forall i int :: 0 <= i && i < len(old(Order[orderId].Shards)) ==> old(has(Shard, Order[orderId].Shards[i])) && old(Shard[Order[orderId].Shards[i]].Status) == ShardCompleted) ==>
+//@       has(Order, orderId) && Order[orderId] == old(Order[orderId])
+//@       && (forall i int :: 0 <= i && i <= MaxUint64 ==> Shard[i] == old(Shard[i]) && (has(Shard, i) <==> old(has(Shard, i))))
+//@       && (forall h int :: 0 <= h && h <= MaxUint64 ==> TimeoutOrder[h] == old(TimeoutOrder[h]) && (has(TimeoutOrder, h) <==> old(has(TimeoutOrder, h))))
+//@       && (forall a addr, d string :: bal(a, d) == old(bal(a, d)))
+//@   ensures [C12.timeout.progress] old(has(Order, orderId)) && old(Order[orderId].Timeout) >= 1 && H + old(Order[orderId].Timeout) <= MaxUint64
+//@       && (old(Order[orderId].Status) != OrderCompleted ==> has(PaymentAddress, (old(Order[orderId].PaymentDid) != "" ? old(Order[orderId].PaymentDid) : old(Order[orderId].Owner)))
+//@             && old(Order[orderId].Amount.Amount) > 0 && oldbal(moduleAddr("order"), old(Order[orderId].Amount.Denom)) >= old(Order[orderId].Amount.Amount)
+//@             && !blockedAddr(addr(PaymentAddress[(old(Order[orderId].PaymentDid) != "" ? old(Order[orderId].PaymentDid) : old(Order[orderId].Owner))].Address))) ==>
+//@       !has(Order, orderId)
+//@       || (forall i int :: 0 <= i && i < len(Order[orderId].Shards) && has(Shard, Order[orderId].Shards[i]) ==> Shard[Order[orderId].Shards[i]].Status != ShardWaiting)
+//@       || (has(TimeoutOrder, H + old(Order[orderId].Timeout)) && contains(TimeoutOrder[H + old(Order[orderId].Timeout)].OrderList, orderId))
 //@   loop L1 invariant -1 <= rangeindex && rangeindex < len(order.Shards) && timeoutCount >= 0 && timeoutCount == len(timeoutShards) && timeoutCount <= rangeindex + 1
 //@   loop L1 invariant forall j int :: 0 <= j && j <= rangeindex && has(Shard, order.Shards[j]) ==> contains(sps, Shard[order.Shards[j]].Sp)
 //@   loop L1 invariant forall q int :: 0 <= q && q < len(timeoutShards) ==> timeoutShards[q].Id < effShardCount(get(ShardCount))
+//@   loop L1 invariant [C12.timeout.progress] timeoutCount == 0 ==> forall j int :: 0 <= j && j <= rangeindex && has(Shard, order.Shards[j]) ==> Shard[order.Shards[j]].Status != ShardWaiting
+//@   loop L1 invariant [C12.timeout.progress] forall q int :: 0 <= q && q < len(completedShards) ==> has(Shard, completedShards[q]) && Shard[completedShards[q]].Status == ShardCompleted
+//@   loop L1 invariant [C12.timeout.stored] (forall i int :: 0 <= i && i < len(order.Shards) ==> has(Shard, order.Shards[i]) && Shard[order.Shards[i]].Status == ShardCompleted) ==> len(uncompletedShards) == 0 && timeoutCount == 0
 //@   loop L1 decreases [C02.timeout.term] len(order.Shards) - rangeindex
 //@   loop L2 invariant -1 <= rangeindex
+//@   loop L2 invariant [C12.timeout.progress] forall q int :: 0 <= q && q < len(completedShards) && has(Shard, completedShards[q]) ==> Shard[completedShards[q]].Status == ShardCompleted
+//@   loop L2 invariant [C12.timeout.progress] forall i int :: 0 <= i && i <= MaxUint64 && has(Shard, i) ==> entry(has(Shard, i)) && Shard[i] == entry(Shard[i])
+//@   loop L2 invariant [C12.timeout.progress] Order[orderId0] == old(Order[orderId0]) && has(Order, orderId0)
+//@   loop L2 invariant [C12.timeout.stored] rangeindex < len(uncompletedShards)
+//@   loop L2 invariant [C12.timeout.stored] rangeindex == -1 ==> forall i int :: 0 <= i && i <= MaxUint64 ==> Shard[i] == entry(Shard[i]) && (has(Shard, i) <==> entry(has(Shard, i)))
 //@   loop L2 decreases [C02.timeout.term] len(uncompletedShards) - rangeindex
 //@   loop L3 invariant -1 <= rangeindex && rangeindex < len(order.Shards)
 //@   loop L3 invariant forall j int :: 0 <= j && j <= rangeindex ==> !has(Shard, order.Shards[j])
 //@   loop L3 invariant Order[orderId0] == old(Order[orderId0]) && has(Order, orderId0)
 //@   loop L3 decreases [C02.timeout.term] len(order.Shards) - rangeindex
 //@   loop L4 invariant -1 <= rangeindex
+//@   loop L4 invariant [C12.timeout.progress] forall q int :: 0 <= q && q < len(completedShards) && has(Shard, completedShards[q]) ==> Shard[completedShards[q]].Status == ShardCompleted
 //@   loop L4 decreases [C02.timeout.term] len(uncompletedShards) - rangeindex
 //@   loop L5 frameexcept order
 //@   loop L5 invariant -1 <= rangeindex && rangeindex < len(randSp)
 //@   loop L5 invariant forall i int :: 0 <= i && i <= MaxUint64 && has(Shard, i) ==> Shard[i].Id == i && i < effShardCount(get(ShardCount))
 //@   loop L5 invariant effShardCount(get(ShardCount)) <= old(effShardCount(get(ShardCount))) + rangeindex + 1 && effShardCount(get(ShardCount)) >= old(effShardCount(get(ShardCount)))
 //@   loop L5 invariant has(Order, orderId0)
+//@   loop L5 invariant [C12.timeout.progress] order.Timeout == old(Order[orderId0].Timeout) && order.Id == orderId0
 //@   loop L5 decreases [C02.timeout.term] len(randSp) - rangeindex
 
 // providers that hold the shards of a model's latest order (reused by a force-push)
